@@ -1,1 +1,7 @@
 """pyvc: verification-condition generator for a Python subset (sidecar contracts, z3/cvc5 back ends)."""
+
+import os as _os
+
+# where this checkout of the verification machinery lives (normally /verif; a snapshot elsewhere works as well)
+HOME = _os.environ.get("PYVC_HOME") or _os.path.dirname(_os.path.dirname(_os.path.abspath(__file__)))
+FIXTURES = _os.path.join(HOME, "fixtures", "pkgs")
